@@ -9,11 +9,15 @@ import Qhttp.Model.Handler
 namespace QhttpBridge.SrvProcess
 open Qhttp QhttpGen.Srv
 
+/-- what the lambda must be: with a root handler `route(socket, path.mid(1))`, without one 500 -/
+def lambdaBody (ve : Vx.Env) : List Vx.LAct := if ve.hasHandler then [Vx.LAct.route 1] else [Vx.LAct.err 500]
+
+/-- the HTTP socket is created first; then, in either order, `disconnected()` is connected to its deletion and
+    `headersParsed()` to the lambda; nothing else happens (in particular nothing is routed by the function itself) -/
 theorem process_eq (ve : Vx.Env) :
-    ServerPrivate_process ve [] =
-      [Vx.Act.newHttp, .onDisconnectedDelete,
-       .onHeadersParsed (if ve.hasHandler then [Vx.LAct.route 1] else [Vx.LAct.err 500])] := by
-  unfold ServerPrivate_process
+    ∃ rest, ServerPrivate_process ve [] = Vx.Act.newHttp :: rest ∧ rest.length = 2 ∧
+      Vx.Act.onDisconnectedDelete ∈ rest ∧ Vx.Act.onHeadersParsed (lambdaBody ve) ∈ rest := by
+  unfold ServerPrivate_process lambdaBody
   unfold_srv_helpers
   cases h : ve.hasHandler <;> simp [Vx.act, Vx.lact]
 
@@ -24,17 +28,27 @@ def lambdaMeaning (m : Matcher) (root : Option Node) (path : QStr) : List Vx.LAc
   | _ => none
 
 theorem lambda_is_serverRoute (m : Matcher) (root : Option Node) (path : QStr) (ve : Vx.Env) (h : ve.hasHandler = root.isSome) :
-    ∃ body, ServerPrivate_process ve [] = [Vx.Act.newHttp, .onDisconnectedDelete, .onHeadersParsed body] ∧
-      lambdaMeaning m root path body = serverRoute m root path := by
-  refine ⟨_, process_eq ve, ?_⟩
-  unfold serverRoute
+    Vx.Act.onHeadersParsed (lambdaBody ve) ∈ ServerPrivate_process ve [] ∧
+      lambdaMeaning m root path (lambdaBody ve) = serverRoute m root path := by
+  obtain ⟨rest, e, _, _, hm⟩ := process_eq ve
+  refine ⟨by rw [e]; exact List.mem_cons_of_mem _ hm, ?_⟩
+  unfold serverRoute lambdaBody
   cases root with
   | none => simp at h; simp [h, lambdaMeaning]
   | some r => simp at h; simp [h, lambdaMeaning]
 
-/-- the socket is deleted when the client has gone, and only through that connection -/
+/-- the socket is deleted when the client has gone -/
 theorem deletes_on_disconnect (ve : Vx.Env) : Vx.Act.onDisconnectedDelete ∈ ServerPrivate_process ve [] := by
-  rw [process_eq]; simp
+  obtain ⟨rest, e, _, hd, _⟩ := process_eq ve
+  rw [e]; exact List.mem_cons_of_mem _ hd
+
+/-- the function itself neither routes nor answers: whatever is routed is routed by the lambda -/
+theorem only_the_lambda_routes (ve : Vx.Env) :
+    (ServerPrivate_process ve []).filter (fun a => match a with | .onHeadersParsed _ => true | _ => false) =
+      [Vx.Act.onHeadersParsed (lambdaBody ve)] := by
+  unfold ServerPrivate_process lambdaBody
+  unfold_srv_helpers
+  cases h : ve.hasHandler <;> simp [Vx.act, Vx.lact]
 
 example : lambdaMeaning (fun _ _ => none) (some (Node.mk 0 [] [] Subs.nil false)) [47, 97] [Vx.LAct.route 1] =
     some [Act.process 0 [97]] := by decide
